@@ -58,3 +58,5 @@ def run(ctx):
     from ..engines import expandverified as XV
     XV.x2_copy_before_share(ctx)
     ctx.floor("X2", 3)
+    J.j12_reader_admits_every_writer(ctx)
+    ctx.floor("J12", 1)
